@@ -3,18 +3,161 @@
 Spec: the lookup part of spec/ToastLattice.tla - Admissible(p, d) (the tiles of depth d whose closed cell holds the
 lattice point p or a point sewn to it by the fold), the descent state machine (LookupHolds, NeverStuck, LookupNested)
 and T_LookupCentre; TLC emits Admissible for every lattice point of the bounded lattice at every depth.
+spec/ToastQuery.tla adds the query as the caller writes it: points that are no lattice points (the unit square holding
+them, T_UnitCell / T_InteriorPoint: the closed form used deeper than TLC's lattice; TLC emits the holders of every unit
+square) and the number format of the query as a variable of the lookup machine (the answer is owed to the point denoted).
 Binding: test points are generated FROM the lattice (tile centres, pixel centres, edge midpoints, corners, the
 equator diamond, the prime-meridian seam, the poles, the sewn boundary), mapped to the sphere by psi, shifted by
 multiples of 2 pi, and fed to the real toast_tile_for_point / toast_pixel_for_point in both coordinate systems; the
 returned tile must be in TLC's admissible set (closed form deeper, for strictly interior points), the tiles for
 increasing depths must be nested, and the fractional pixel must be within 2 px of the pixel whose centre is nearest.
+Points given by their coordinates instead (integer numbers of radians; values exactly representable in a narrow float)
+are first located in the lattice (the unit square / face of the cell complex whose psi-image holds them, with a margin),
+judged by TLC's tables of that unit square / face, and asked in every type a caller may write the two numbers in.
 """
+import decimal
+import fractions
+import json
+import os
+import random
+import threading
+
 import numpy as np
 
-from lib import repo, lattice, guard
+from lib import repo, lattice, guard, tla
 from checks import toastlat
 
 TWOPI = 2 * np.pi
+
+QCFG = """SPECIFICATION QSpec
+CONSTANTS
+ R = %(R)d
+ MaxDepth = %(D)d
+ K = 1
+INVARIANT LookupHolds
+INVARIANT NeverStuck
+PROPERTY LookupNested
+CHECK_DEADLOCK FALSE
+"""
+
+
+def query_tlc(ctx, R, D):
+    """TLC on spec/ToastQuery.tla: the theorems about points that are no lattice points, the lookup machine with the format of
+    the query as a variable, and the table unit square -> the tiles of depth 1..D that hold it.  {"R", "D", "units": {u: [pos]}}"""
+    outp = os.path.join(ctx.scratch, "toastquery-%d-%d.json" % (R, D))
+    defs = ["ASSUME %s" % th for th in ("T_CellPos", "T_UnitCell", "T_UnitNested", "T_InteriorPoint", "T_SpellingFree", "T_FormatsNest")]
+    defs += ["UnitTable == LET us == SetToSeq(Units) IN [i \\in DOMAIN us |-> [u |-> us[i], cells |-> [d \\in 1..MaxDepth |-> SetToSeq(UnitHolders(us[i], d))]]]",
+             "ASSUME JsonSerialize(IOEnv.OUT, [R |-> R, D |-> MaxDepth, units |-> UnitTable])"]
+    ctx.tlc("MCToastQuery", extra={"MCToastQuery.tla": tla.module("MCToastQuery", ["ToastQuery", "Json", "IOUtils", "SequencesExt"], defs)},
+            cfg_text=QCFG % dict(R=R, D=D), env={"OUT": outp}, timeout=3000)
+    raw = json.load(open(outp))
+    return {"R": raw["R"], "D": raw["D"], "units": {tuple(x["u"]): [[tuple(q) for q in lst] for lst in x["cells"]] for x in raw["units"]}}
+
+
+def cell_distances(psi, d, x, y, v):
+    """Signed distances (rad; > 0 inside) of the unit vector v from the four great circles that bound the cell (d, x, y) of the
+    lattice (corners by psi; edges ul-ur, ur-lr, lr-ll, ll-ul), and the length of the cell's shortest edge."""
+    c = psi.corners(d, x, y)
+    ctr = psi.centre(d, x, y)
+    dist, short = [], np.inf
+    for k in range(4):
+        a, b = c[k], c[(k + 1) % 4]
+        nrm = np.cross(a, b)
+        nrm = nrm / np.linalg.norm(nrm)
+        if np.dot(nrm, ctr) < 0:
+            nrm = -nrm
+        dist.append(float(np.dot(nrm, v)))
+        short = min(short, float(np.linalg.norm(a - b)))
+    return dist, short
+
+
+def locate(psi, v, depth):
+    """The cells of depth 1..depth of the lattice that hold the unit vector v, by descent (at every level the child v lies deepest
+    inside): [(x, y, margin)], margin = distance of v from the cell's boundary / the cell's shortest edge."""
+    out = []
+    x = y = 0
+    for d in range(1, depth + 1):
+        best = None
+        for cx, cy in ((2 * x, 2 * y), (2 * x + 1, 2 * y), (2 * x, 2 * y + 1), (2 * x + 1, 2 * y + 1)):
+            dist, short = cell_distances(psi, d, cx, cy, v)
+            m = min(dist) / short
+            if best is None or m > best[2]:
+                best = (cx, cy, m)
+        x, y = best[0], best[1]
+        out.append(best)
+    return out
+
+
+MARGIN = 1e-3        # a located point is judged at a depth only if it is at least this fraction of the cell's shortest edge inside the cell
+
+
+def expectation(t, qt, psi, v, dmax):
+    """What the lattice says about the point v of the sphere: {depth: set of admissible tile positions} for the depths
+    0..dmax at which v is judged.  A point strictly inside (by MARGIN) a unit square of ToastQuery's lattice: the holders TLC
+    lists for that unit square to TLC's depth, its ancestors' closed form (ToastQuery!T_UnitCell, T_InteriorPoint) below, as
+    deep as v stays strictly inside; a point ON a vertex or an edge of the cell complex of ToastLattice's level R - 1: TLC's
+    Admissible table of the lattice point that represents that face, to TLC's depth; any other point (close to a boundary, not on
+    it): not judged from the depth on at which it gets close."""
+    exp = {0: {(0, 0, 0)}}
+    loc = locate(psi, v, max(dmax, qt["R"], t.R - 1))
+    bad = [d for d, (_, _, m) in enumerate(loc, 1) if m < MARGIN]
+    first_bad = bad[0] if bad else len(loc) + 1
+    if first_bad > qt["R"]:
+        u = (loc[qt["R"] - 1][0], loc[qt["R"] - 1][1])
+        for d in range(1, min(qt["D"], dmax) + 1):
+            cells = qt["units"][u][d - 1]
+            if cells != [(d, loc[d - 1][0], loc[d - 1][1])]:
+                raise guard.MachineryError("locating a point in the lattice: unit square %s at depth %d is held by %s according to TLC, by %s according to psi" % (u, d, cells, loc[d - 1]))
+            exp[d] = set(cells)
+        g = min(first_bad - 1, len(loc))
+        for d in range(qt["D"] + 1, min(dmax, g) + 1):
+            exp[d] = {(d, loc[g - 1][0] >> (g - d), loc[g - 1][1] >> (g - d))}
+        return exp, "interior"
+    if first_bad <= t.R - 1:
+        n = t.R - 1
+        x, y = loc[n - 1][0], loc[n - 1][1]
+        dist, short = cell_distances(psi, n, x, y, v)
+        on = [k for k in range(4) if abs(dist[k]) < 1e-12]
+        off_ok = all(dist[k] > MARGIN * short for k in range(4) if k not in on)
+        cor = [(x, y), (x + 1, y), (x + 1, y + 1), (x, y + 1)]
+        rep = None
+        if off_ok and len(on) == 1:
+            a, b = cor[on[0]], cor[(on[0] + 1) % 4]
+            rep = (a[0] + b[0], a[1] + b[1])                       # the edge's midpoint, a lattice point of refinement R
+        elif off_ok and len(on) == 2 and (on[1] - on[0]) in (1, 3):
+            k = on[1] if on[1] - on[0] == 1 else on[0]              # the corner the two edges share
+            rep = (2 * cor[k][0], 2 * cor[k][1])
+        if rep is not None:
+            for d in range(1, min(t.D, dmax) + 1):
+                exp[d] = set(t.adm[rep][d - 1])
+            return exp, "face"
+    return exp, "ambiguous"
+
+
+def is_narrow(o):
+    """A numpy scalar / 0-d array type in which numpy computes at less than double precision (float16 / float32; the integer
+    types of 8 and 16 bits, whose cosine is a float16 / float32)."""
+    dt = getattr(o, "dtype", None)
+    return dt is not None and ((dt.kind == "f" and dt.itemsize < 8) or (dt.kind in "iu" and dt.itemsize < 4))
+
+
+def spellings(val):
+    """The ways a caller may write the real number val (a Python float; every spelling listed denotes exactly val):
+    [(name, object, may_be_refused)] - may_be_refused: number types the entry points need not accept (a TypeError is not judged)."""
+    out = [("float", float(val), False), ("np.float64", np.float64(val), False), ("0-d float64 array", np.array(val, dtype=np.float64), False),
+           ("np.longdouble", np.longdouble(val), True), ("Fraction", fractions.Fraction(val), True), ("Decimal", decimal.Decimal(val), True)]
+    if val == int(val) and abs(val) < 100:
+        iv = int(val)
+        out += [("int", iv, False), ("np.int64", np.int64(iv), False), ("np.int32", np.int32(iv), False), ("0-d int64 array", np.array(iv, dtype=np.int64), False),
+                ("np.int16", np.int16(iv), False), ("np.int8", np.int8(iv), False)]
+        if iv >= 0:
+            out += [("np.uint8", np.uint8(iv), False), ("np.uint64", np.uint64(iv), False)]
+    if float(np.float32(val)) == val:
+        out += [("np.float32", np.float32(val), False), ("0-d float32 array", np.array(val, dtype=np.float32), False)]
+    with np.errstate(over="ignore"):
+        if float(np.float16(val)) == val:
+            out += [("np.float16", np.float16(val), False)]
+    return out
 
 
 def run(ctx):
